@@ -303,6 +303,20 @@ def rule_gsd(ctx, tu):
     # "the same conditions" = the same chain of enclosing if-branches (flow facts would lose `x > 0` at the decrement of x)
     chain = {}
 
+    def norm_(cond, pol):
+        c_ = strip(cond, casts=True)
+        while c_.get("kind") == "UnaryOperator" and c_.get("opcode") == "!":
+            c_, pol = strip(kids(c_)[0], casts=True), not pol
+        return (cxa.canon(c_), pol)
+
+    def leaves_(b):
+        """does the branch always leave the enclosing block (continue / break / return as its last statement)?"""
+        b = strip(b)
+        if b.get("kind") == "CompoundStmt":
+            ks = kids(b)
+            return bool(ks) and leaves_(ks[-1])
+        return b.get("kind") in ("ContinueStmt", "BreakStmt", "ReturnStmt")
+
     def rec_(n, ch):
         chain[id(n)] = ch
         if n.get("kind") == "IfStmt":
@@ -310,7 +324,17 @@ def rule_gsd(ctx, tu):
             rec_(p_[0], ch)
             for bi, b in enumerate(p_[1:3]):
                 if b:
-                    rec_(b, ch + ((cxa.canon(p_[0]), bi == 0),))
+                    rec_(b, ch + (norm_(p_[0], bi == 0),))
+            return
+        if n.get("kind") == "CompoundStmt":
+            cur = ch
+            for c in kids(n):
+                rec_(c, cur)
+                # `if(c) continue;` (no else): what follows in this block runs under !c
+                if c.get("kind") == "IfStmt":
+                    p_ = cxfe.raw_kids(c)
+                    if (len(p_) < 3 or not p_[2]) and leaves_(p_[1]):
+                        cur = cur + (norm_(p_[0], False),)
             return
         for c in kids(n):
             rec_(c, ch)
